@@ -169,7 +169,7 @@ func runC10(c *core.Ctx) {
 		"9223372036854775808", "18446744073709551616", "10000000000000000000000000"}
 	zeros := []int{0, 1, 2, 20}
 	suffixes := []string{"", "H", "'", "HH", "'H", "h", "H'"}
-	shapes := []string{"%s", "m/%s", "m/%s/1/2", "m/1/2/%s", "%s/5", "m//%s", "m/%s/", "/%s", "m/%s//3", "M/%s", " %s", "%s ", "+%s", "-%s", "0x%s", "0o%s", "0b%s", "%s_0", "m/%s.0", "m/١%s"}
+	shapes := []string{"%s", "m/%s", "m/%s/1/2", "m/1/2/%s", "%s/5", "m//%s", "m/%s/", "/%s", "m/%s//3", "M/%s", " %s", "%s ", "+%s", "-%s", "0x%s", "0o%s", "0b%s", "%s_0", "m/%s.0", "m/١%s", "m/+%s", "m/-%s", "m/1/+0%s", "m/%se0", "m/%s\n", "m/\t%s", "m/1/ %s", "m/%s\x00"}
 	for _, v := range values {
 		for _, z := range zeros {
 			for _, sf := range suffixes {
@@ -202,6 +202,16 @@ func runC10(c *core.Ctx) {
 		long[i] = uint32(i)*0x9E3779B1 + 7
 	}
 	paths = append(paths, long)
+	// any length: around every power of two up to 2^17 (depth limits, 8- and 16-bit counters)
+	for k := 7; k <= 17; k++ {
+		for _, d := range []int{-1, 0, 1} {
+			lp := make([]uint32, 1<<uint(k)+d)
+			for i := range lp {
+				lp[i] = uint32(i)*2654435761 + uint32(k)
+			}
+			paths = append(paths, lp)
+		}
+	}
 	// single-component paths for many values incl. those whose decimal form would read as octal if zero-padded
 	for v := uint32(0); v < 5000; v++ {
 		paths = append(paths, []uint32{v}, []uint32{v | 1<<31})
